@@ -5,6 +5,8 @@ try:
 except ImportError:
     pass
 import numpy as np
+import os
+import shutil
 
 from functools import partial
 from pathlib import Path
@@ -1266,16 +1268,20 @@ class Sampler():
         if filepath.suffix not in ['.h5', '.hdf5']:
             raise ValueError("File ending must '.h5' or '.hdf5'.")
 
-        if filepath.exists():
-            if not overwrite:
-                raise RuntimeError(
-                    "File {} already exists.".format(str(filepath)))
-            else:
-                filepath.unlink()
+        if filepath.exists() and not overwrite:
+            raise RuntimeError(
+                "File {} already exists.".format(str(filepath)))
 
         filepath.parent.mkdir(parents=True, exist_ok=True)
 
-        fstream = h5py.File(filepath, 'x')
+        # Write to a temporary file and move it into place once it is
+        # complete. This way, the file at `filepath` is always a complete
+        # checkpoint, even if the process is killed while writing.
+        filepath_tmp = filepath.with_name(filepath.name + '.tmp')
+        if filepath_tmp.exists():
+            filepath_tmp.unlink()
+
+        fstream = h5py.File(filepath_tmp, 'x')
         group = fstream.create_group('sampler')
 
         for key in ['n_dim', 'n_live', 'n_update', 'n_like_new_bound',
@@ -1323,6 +1329,7 @@ class Sampler():
         group.attrs['rng_uinteger'] = rng_state['uinteger']
 
         fstream.close()
+        os.replace(filepath_tmp, filepath)
 
     def write_shell_update(self, filepath, shell):
         """Update the sampler data for a single shell.
@@ -1337,7 +1344,13 @@ class Sampler():
         """
         if shell < 0:
             shell = len(self.bounds) + shell
-        fstream = h5py.File(Path(filepath), 'r+')
+        # Update a copy of the file and move it into place once the update is
+        # complete. This way, the file at `filepath` is always a complete
+        # checkpoint, even if the process is killed while writing.
+        filepath = Path(filepath)
+        filepath_tmp = filepath.with_name(filepath.name + '.tmp')
+        shutil.copyfile(filepath, filepath_tmp)
+        fstream = h5py.File(filepath_tmp, 'r+')
         group = fstream['sampler']
 
         for key in ['n_like', '_discard_exploration', 'shell_n',
@@ -1369,3 +1382,4 @@ class Sampler():
         group.attrs['rng_uinteger'] = rng_state['uinteger']
 
         fstream.close()
+        os.replace(filepath_tmp, filepath)
